@@ -421,6 +421,12 @@ def _check_with_correlations(sc: dict, alone: list[dict], corrs: list[dict], got
     docs = sc["documents"]
     referenced = {t for c in corrs for t in c["correlation"]["rules"]}
     involved = {d["title"] for d in docs if d.get("name") in referenced}
+    # the correlation rules here always ask for generation: the rules they refer to emit their own
+    # queries, and "each of these queries equals what converting that rule alone yields" holds for them
+    # like for any other rule (finalisation and post-processing included)
+    # ... except those whose output is switched off: nothing is emitted for them, and what a correlation
+    # rule embeds is legitimately not finalised on its own
+    held_back: set = {t for t in involved if t in sc.get("disabled", [])}
     if "ok" not in got:
         if got.get("sigma") or got.get("exc") == "NotImplementedError":
             return {"oracle": "collect-mode-never-raises-for-listed-failure-stages",
@@ -436,21 +442,21 @@ def _check_with_correlations(sc: dict, alone: list[dict], corrs: list[dict], got
     by_title: dict[str, list] = {}
     for q in qs:
         by_title.setdefault(title_of(q), []).append(q)
-    by_stander_q = [q for q in qs if title_of(q) not in involved and not title_of(q).startswith("K")]
+    by_stander_q = [q for q in qs if title_of(q) not in held_back and not title_of(q).startswith("K")]
     want_q: list = []
     want_e: list = []
     for d, a in zip(docs, alone):
-        if d["title"] in involved:
+        if d["title"] in held_back:
             continue
         want_q.extend(a["ok"] if isinstance(a["ok"], list) else [a["ok"]])
         want_e.extend(a["errors"])
     want_q = world.normalise(want_q)
-    got_e = [e for e in got["errors"] if e["rule"] not in involved and not str(e["rule"]).startswith("K")]
+    got_e = [e for e in got["errors"] if e["rule"] not in held_back and not str(e["rule"]).startswith("K")]
     if by_stander_q != want_q:
-        return {"oracle": "batch-equals-concatenation-of-alone-results", "kind": "bystander-queries-differ-with-correlation-rule",
+        return {"oracle": "batch-equals-concatenation-of-alone-results", "kind": "rule-queries-differ-with-correlation-rule",
                 "got": {"ok": by_stander_q}, "want": {"ok": want_q}}
     if got_e != want_e:
-        return {"oracle": "one-error-record-per-failing-rule", "kind": "bystander-errors-differ-with-correlation-rule",
+        return {"oracle": "one-error-record-per-failing-rule", "kind": "rule-errors-differ-with-correlation-rule",
                 "got": {"errors": got_e}, "want": {"errors": want_e}}
     failed = set()
     for title in sorted(involved) + [c["title"] for c in corrs]:
